@@ -30,6 +30,8 @@ From SV Require Import proofs.NglobCands3.
 From SV Require Import proofs.NglobCands4.
 From SV Require Import proofs.NglobNamedWide.
 From SV Require Import proofs.NglobEndToEnd.
+From SV Require Import model.NglobRegs.
+From SV Require Import proofs.NglobRegsProofs.
 Import ListNotations.
 Open Scope N_scope.
 
@@ -640,3 +642,77 @@ Example C17_example_end_to_end :
   /\ (forall q, In q (@nil str) -> ~ In q (all_paths e2e_t'))
   /\ (forall q, In q (all_paths e2e_t') <-> (In q (all_paths e2e_t) /\ ~ In q (@nil str)) \/ In q e2e_added).
 Proof. exact glob_update_equals_rescan_g1s_hyps_satisfiable. Qed.
+
+(* ========================================================================================== *)
+(* (7) Several registrations: (step, pattern, substitutions) each, possibly the same pattern     *)
+(*     string several times.                                                                    *)
+(* ========================================================================================== *)
+
+(* process_nglob_changes treats every registration on its own: the row written for the i-th
+   registration is process_reg of that registration alone. *)
+Theorem C17_process_rows_independent :
+  forall (K : Type) (keqb : K -> K -> bool) (regs : list (reg K)) (deleted updated : list str)
+         (out : list (reg K * bool)),
+    process_nglob_changes keqb regs deleted updated = Some out ->
+    length out = length regs
+    /\ forall i r, nth_error regs i = Some r -> nth_error out i = Some (process_reg keqb deleted updated r).
+Proof. exact process_rows_independent. Qed.
+
+(* ... so the same registration gets the same row whatever other registrations exist around it *)
+Theorem C17_process_row_ignores_other_registrations :
+  forall (K : Type) (keqb : K -> K -> bool) (pre post pre' post' : list (reg K)) (r : reg K)
+         (deleted updated : list str) out out',
+    process_nglob_changes keqb (pre ++ r :: post) deleted updated = Some out ->
+    process_nglob_changes keqb (pre' ++ r :: post') deleted updated = Some out' ->
+    nth_error out (length pre) = nth_error out' (length pre')
+    /\ nth_error out (length pre) = Some (process_reg keqb deleted updated r).
+Proof. exact process_row_ignores_other_registrations. Qed.
+
+(* After a watch-phase commit EVERY registration that satisfies the hypotheses of (4) (for its own
+   matcher and its own recorded dictionary) holds a dictionary equal to its own fresh scan, and is
+   rewritten exactly when that scan differs; the commit never raises. *)
+Theorem C17_watch_commit_every_row :
+  forall (K : Type) (keqb : K -> K -> bool), (forall a b, keqb a b = true <-> a = b) ->
+  forall (rel : bool -> str -> bool) (under : bool -> str -> list str)
+         (regs : list (reg K)) (fs : list str) (tr : list (item * list str)) (unchanged : list str),
+  exists out,
+    watch_commit keqb rel under regs (map fst tr) unchanged = Some out
+    /\ length out = length regs
+    /\ forall i mv old,
+         nth_error regs i = Some (mv, old) ->
+         (forall db p, mv p <> None -> rel db p = true) ->
+         trace_ok K mv under fs tr ->
+         (forall p, In p unchanged -> mv p <> None -> In p fs) ->
+         reachable K keqb mv old ->
+         results_eqb keqb old (scan keqb mv fs) = true ->
+         exists new changed,
+           nth_error out i = Some ((mv, new), changed)
+           /\ (changed = false <-> results_eqb keqb old (scan keqb mv (trace_final fs tr)) = true)
+           /\ (changed = true -> results_eqb keqb new (scan keqb mv (trace_final fs tr)) = true)
+           /\ (changed = false -> new = old).
+Proof. exact watch_commit_every_row. Qed.
+
+(* A per-batch memo of will_change (model/NglobRegs.v process_memo) changes nothing iff its key
+   determines the registration: sound when equal keys imply equal (matcher, recorded results) ... *)
+Theorem C17_memo_sound :
+  forall (K : Type) (keqb : K -> K -> bool) (P : Type) (peqb : P -> P -> bool),
+    (forall a b, peqb a b = true <-> a = b) ->
+  forall (regs : list (kreg K P)) (deleted updated : list str),
+    (forall k r1 r2, In (k, r1) regs -> In (k, r2) regs -> r1 = r2) ->
+    process_memo keqb peqb regs deleted updated = process_nglob_changes keqb (map snd regs) deleted updated.
+Proof. exact memo_sound. Qed.
+
+(* ... and wrong when keyed by the pattern string alone: `data_${*i}.txt` registered with i = [0-9]
+   and with i = [a-z], both having scanned {data_1.txt, data_a.txt}; data_b.txt appears.  The memo
+   hands the first registration's answer (None) to the second, which misses its new match; when
+   data_1.txt disappears instead, the second row receives the first registration's evolved object. *)
+Theorem C17_memo_by_pattern_refuted :
+  rows_view (process_memo key_eqb str_eqb rg_regs [] [rg_b]) = Some [([rg_1], false); ([rg_a], false)]
+  /\ rows_view (process_nglob_changes key_eqb (map snd rg_regs) [] [rg_b]) = Some [([rg_1], false); ([rg_a; rg_b], true)]
+  /\ files (scan key_eqb (rg_mv rg_letters) [rg_1; rg_a; rg_b]) = [rg_a; rg_b].
+Proof. exact memo_by_pattern_refuted. Qed.
+
+Theorem C17_memo_by_pattern_persists_foreign_object :
+  rows_view (process_memo key_eqb str_eqb rg_regs [rg_1] []) = Some [([], true); ([], true)]
+  /\ rows_view (process_nglob_changes key_eqb (map snd rg_regs) [rg_1] []) = Some [([], true); ([rg_a], false)].
+Proof. exact memo_by_pattern_persists_foreign_object. Qed.
